@@ -37,9 +37,13 @@ def rand_re(rng, chars, d=0, ci_ok=True):
     return {"t": "ci", "e": rand_re(rng, chars, d + 1, False)}
 
 
+def esc(c):
+    """A character inside a pattern; control characters (NUL!) in \\xhh form - the grammar loader takes no raw ones."""
+    return "".join("\\x%02x" % ord(x) if ord(x) < 32 else pyre.escape(x) for x in c)
+
+
 def show(r):
     t = r["t"]
-    esc = pyre.escape
     if t == "lit":
         return esc(r["c"])
     if t == "cls":
@@ -248,7 +252,8 @@ def lark_text(LG):
         lines.append(f"{r['h']}: " + " | ".join(" ".join(y["s"] + y["op"] for y in alt) for alt in r["alts"]))
     for t in LG["terms"]:
         if "lit" in t:
-            lines.append(f'{t["name"]}: "{t["lit"]}"' + ("i" if t["ci"] else ""))
+            lit = "".join("\\x%02x" % ord(x) if ord(x) < 32 else x for x in t["lit"])
+            lines.append(f'{t["name"]}: "{lit}"' + ("i" if t["ci"] else ""))
         else:
             lines.append(f'{t["name"]}: /{show(t["re"])}/' + ("i" if t["ci"] else ""))
     for t in LG["ignore"]:
